@@ -417,6 +417,17 @@ def candidates(fn, stored_attrs=frozenset()) -> List[Cand]:
                         st.body, st.orelse = st.orelse, []
                         stmts[i + 1:i + 1] = moved
                     out.append((f"else-exit-out{k}", f))
+            # `if c: exit` + rest  ->  `if not c: rest else: exit`   (else-in + swap in one step)
+            if isinstance(st, ast.If) and not st.orelse and rest and exits(st.body) and isinstance(st.test, ast.BoolOp):
+                for k, ng in enumerate(negations(st.test)):
+                    if isinstance(ng, ast.UnaryOp):
+                        continue      # the shape step would turn `if not c: A else: B` back
+                    def f(stmts=stmts, i=i, st=st, ng=ng):
+                        st.orelse = st.body
+                        st.body = stmts[i + 1:]
+                        st.test = ng
+                        del stmts[i + 1:]
+                    out.append((f"guard-else-swap{k}", f))
             # try / except-exit / else
             if isinstance(st, ast.Try) and st.handlers and not st.finalbody and all(exits(h.body) for h in st.handlers):
                 if rest and not st.orelse:
@@ -959,7 +970,7 @@ def _comp_to_loop(st):
 
 
 # ------------------------------------------------------------------------------------------------ inlining of temporaries
-def inline_fresh(fn, known_names: set, stored_attrs) -> bool:
+def inline_fresh(fn, known_names: set, stored_attrs, dry: bool = False) -> bool:
     """`t = E` where t is unknown to the reference and assigned once: E replaces the reads of t when
        (a) there is one read, in the statement that follows (or the first statement of the `try` / `with` that follows),
            evaluated before anything with an effect there, or one such read in each branch of the `if` that follows;
@@ -994,6 +1005,8 @@ def inline_fresh(fn, known_names: set, stored_attrs) -> bool:
             parents = {id(c): p_ for p_ in ast.walk(fn) for c in ast.iter_child_nodes(p_)}
             cmp_only = all(isinstance(parents.get(id(r)), ast.Compare) for r in rs)
             if stable(st.value, fn, stored_attrs, cmp_only) and not _operand_rebound_after(fn, st, later):
+                if dry:
+                    return True
                 for r in rs:
                     _put(stmts, i + 1, r, st.value)
                 del stmts[i]
@@ -1017,6 +1030,8 @@ def inline_fresh(fn, known_names: set, stored_attrs) -> bool:
                 remaining = [r for r in remaining if r is not here[0]]
             if not ok or remaining:
                 continue
+            if dry:
+                return True
             for container, j, r in chosen:
                 if container is None:
                     _put(stmts, i + 1, r, st.value)
@@ -1715,6 +1730,8 @@ def direct_function(fn, ref_fps: List[str], known_names: set, stored_attrs, norm
     def settle(f):
         # inlining of fresh temporaries: applied as long as no matched statement is lost
         for _ in range(30):
+            if not inline_fresh(f, known_names, stored_attrs, dry=True):
+                break
             m0 = score(f)[0]
             trial = copy.deepcopy(f)
             if not inline_fresh(trial, known_names, stored_attrs):
@@ -1725,6 +1742,9 @@ def direct_function(fn, ref_fps: List[str], known_names: set, stored_attrs, norm
             f.body = trial.body
         normalise(f)
 
+    # deterministic cost bound: an evaluation costs as many units as the function has statements
+    size = max(1, len(ref_fps))
+    budget = max(60, min(budget, 90000 // size))
     cur = copy.deepcopy(fn)
     settle(cur)
     m, u, k0 = score(cur)
@@ -1735,6 +1755,8 @@ def direct_function(fn, ref_fps: List[str], known_names: set, stored_attrs, norm
     best, best_m, best_u = cur, m, u
     tier = 1          # rewrites that duplicate statements (DUPLICATING) are only tried when the others are exhausted
     while best_u > 0 and evals < budget:
+        if tier == 1 and evals > 0.6 * budget:
+            heap = []          # keep a share of the budget for the rewrites of the second tier
         if not heap:
             if tier == 2:
                 break
